@@ -515,6 +515,80 @@ impl<E: metrique_writer::Entry + Send + 'static> metrique_writer::EntrySink<E> f
     }
 }
 
+/// A force-flush guard that outlives its (already appended) entry - the documented "timeout task"
+/// use - is dropped while LATER entries created on the same thread are in flight: it belongs to
+/// its own entry and must not touch theirs.
+fn stale_force_guard_history(rng: &mut Rng, rep: &Report) -> Option<u64> {
+    let sink = CountingSink::new();
+    let n_stale = 1 + rng.usize_below(3);
+    let mut stale = vec![];
+    for _ in 0..n_stale {
+        let owner = Work { a: 1, b: 2 }.append_on_drop(sink.clone());
+        stale.push(owner.force_flush_guard());
+        drop(owner);
+    }
+    if sink.count() != n_stale {
+        rep.violation("not-appended-when-due", json!({"what": "entries with only a force-flush guard outstanding must be appended when their owner is dropped", "expected": n_stale, "observed": sink.count()}));
+        return None;
+    }
+    let variant = rng.below(3);
+    let witness = |step: &str, observed: usize, expected: usize| {
+        json!({"what": "force-flush guards of entries that were appended long ago are still alive; a later entry on the same thread relies on its own flush guard",
+               "stale_force_guards": n_stale, "variant": variant, "step": step, "appends_observed": observed, "appends_expected": expected})
+    };
+    let owner = Work { a: 7, b: 8 }.append_on_drop(sink.clone());
+    let g = owner.flush_guard();
+    let mut expected = n_stale;
+    match variant {
+        0 => {
+            // later entry: owner dropped, flush guard alive; then the stale guards go
+            drop(owner);
+            drop(stale);
+            if sink.count() != expected {
+                rep.violation("appended-while-flush-guard-alive", witness("stale force-flush guards of OTHER entries dropped", sink.count(), expected));
+                return None;
+            }
+            drop(g);
+        }
+        1 => {
+            // stale guards go while the later entry's owner is alive; its flush guard must still count
+            drop(stale);
+            drop(owner);
+            if sink.count() != expected {
+                rep.violation("appended-while-flush-guard-alive", witness("owner dropped after the stale guards of other entries were dropped; own flush guard alive", sink.count(), expected));
+                return None;
+            }
+            drop(g);
+        }
+        _ => {
+            // the later entry has its own force-flush guard too
+            let f = owner.force_flush_guard();
+            drop(owner);
+            drop(stale.pop());
+            if sink.count() != expected {
+                rep.violation("appended-while-flush-guard-alive", witness("one stale guard of another entry dropped; own flush and force-flush guards alive", sink.count(), expected));
+                return None;
+            }
+            drop(f);
+            expected += 1;
+            if sink.count() != expected {
+                rep.violation("not-appended-when-due", witness("own force-flush guard dropped", sink.count(), expected));
+                return None;
+            }
+            expected -= 1;
+            drop(g);
+            drop(stale);
+        }
+    }
+    expected += 1;
+    if sink.count() != expected {
+        rep.violation(if sink.count() < expected { "not-appended-when-due" } else { "appended-twice" }, witness("everything dropped", sink.count(), expected));
+        return None;
+    }
+    rep.count("stale_force_guard_histories", 1);
+    Some(Fnv::new().str("stale-force").u64(variant).u64(n_stale as u64).finish() | 1)
+}
+
 /// One entry's final drop panics inside the sink (caught); entries finished on the SAME thread
 /// afterwards - by owner drop, by the last flush guard, by a force-flush guard - must be appended
 /// exactly once, at the right moment, as if nothing had happened.
@@ -684,6 +758,12 @@ fn main() {
                         rep.eval();
                         if rng.below(50) == 0 {
                             if let Some(sig) = after_caught_panic_history(&mut rng, rep) {
+                                rep.distinct(sig);
+                            }
+                            continue;
+                        }
+                        if rng.below(50) == 0 {
+                            if let Some(sig) = stale_force_guard_history(&mut rng, rep) {
                                 rep.distinct(sig);
                             }
                             continue;
